@@ -141,12 +141,44 @@ def make_cases(rng, addrs, prefix, chunk):
     return cases
 
 
+def directed_cases(rng, tier):
+    """writes whose effect depends on the machine state: LYC equal to the line being drawn with the LY=LYC source
+    selected, NRx4 length-enable writes that expire the channel (extra length clock) while the others play"""
+    cases = []
+    ctor = CONFIGS[0][1]
+    name = CONFIGS[0][0]
+    n = 0
+    for rep in range(2 if tier == 'quick' else 12):
+        k = rng.choice([rng.randrange(0, 144 * 114), rng.randrange(0, 17556)])
+        g = (k // 114) % 154
+        lines = [ctor, 'sys.w 0xFF41 %d' % rng.choice([0x40, 0x48, 0x78]), 'sys.hw %d' % k]
+        for v in (g - 1, g, g + 1, g):
+            lines += ['sys.w 0xFF0F 0', 'map.snap', 'map.wd 0xFF45 %d' % (v % 256)]
+        for a in (0xFF41, 0xFF42, 0xFF43, 0xFF4A, 0xFF4B, 0xFF47):
+            lines += ['sys.w 0xFF0F 0', 'map.snap', 'map.wd %d %d' % (a, rng.choice([0x08, 0x40, 0x78, rng.randrange(256)]))]
+        cases.append(('d%d_%s' % (n, name), lines))
+        n += 1
+    regs = {1: (0xFF11, 0xFF12, 0xFF14), 2: (0xFF16, 0xFF17, 0xFF19), 3: (0xFF1B, 0xFF1A, 0xFF1E), 4: (0xFF20, 0xFF21, 0xFF23)}
+    for ch in (1, 2, 3, 4):
+        for phase in (range(8) if tier != 'quick' else [rng.randrange(8), rng.randrange(8)]):
+            lines = [ctor, 'sys.w 0xFF26 0x80', 'sys.w 0xFF24 0x77', 'sys.w 0xFF25 0xFF']
+            for c, (nl, nv, nt) in regs.items():
+                lines.append('sys.w %d %d' % (nv, 0x80 if c == 3 else 0xF3))
+                lines.append('sys.w %d %d' % (nl, 0xFF if (c == 3 and c == ch) else (0x3F if c == ch else 0x00)))
+                lines.append('sys.w %d 0x80' % nt)
+            lines += ['sys.hw %d' % (2048 * phase + rng.randrange(0, 2048)), 'map.snap', 'map.wd %d 0x40' % regs[ch][2]]
+            lines += ['map.wd %d %d' % (regs[c][2], rng.choice([0x40, 0xC0, 0x00])) for c in (1, 2, 3, 4)]
+            cases.append(('d%d_%s' % (n, name), lines))
+            n += 1
+    return cases
+
+
 IMPL_ONLY = {}
 
 
 def generate(rng, tier):
     ca = corr_addrs(rng, tier)
-    cases = make_cases(rng, ca, 'c', 56)
+    cases = make_cases(rng, ca, 'c', 56) + directed_cases(rng, tier)
     ia = impl_addrs(rng, tier)
     impl_cases = make_cases(rng, ia, 'i', 256)
     IMPL_ONLY['cases'] = impl_cases
